@@ -93,6 +93,7 @@ class H11Protocol:
         self.app = app
         self.can_read = context.event_class()
         self.client = client
+        self.closed = False
         self.config = config
         self.connection: Union[h11.Connection, H11WSConnection] = h11.Connection(
             h11.SERVER, max_incomplete_event_size=self.config.h11_max_incomplete_size
@@ -111,7 +112,7 @@ class H11Protocol:
 
     async def handle(self, event: Event) -> None:
         if isinstance(event, RawData):
-            if not self._last_response_in_progress():
+            if not self.closed and not self._last_response_in_progress():
                 self.connection.receive_data(event.data)
                 await self._handle_events()
         elif isinstance(event, Closed):
@@ -158,7 +159,7 @@ class H11Protocol:
 
     async def _handle_events(self) -> None:
         while True:
-            if self._last_response_in_progress():
+            if self.closed or self._last_response_in_progress():
                 break
 
             if self.connection.they_are_waiting_for_100_continue:
@@ -294,6 +295,11 @@ class H11Protocol:
                 await self.can_read.set()
                 await self.send(Updated(idle=True))
         else:
+            # The connection is not reused, a reader waiting for the
+            # response to complete must leave rather than wait again
+            # (h11 stays PAUSED with pipelined data or after a 2xx
+            # response to CONNECT).
+            self.closed = True
             await self.can_read.set()
             await self.send(Closed())
 
